@@ -1,6 +1,9 @@
 //! Author heads
 
-use std::{collections::BTreeMap, num::NonZeroU64};
+use std::{
+    collections::{BTreeMap, BTreeSet},
+    num::NonZeroU64,
+};
 
 use anyhow::Result;
 
@@ -70,9 +73,10 @@ impl AuthorHeads {
     /// Will skip oldest entries if the size limit is reached.
     /// Returns a byte array with a maximum length of `size_limit`.
     pub fn encode(&self, size_limit: Option<usize>) -> Result<Vec<u8>> {
-        let mut by_timestamp = BTreeMap::new();
+        // keyed by (timestamp, author): authors that share a timestamp are all kept
+        let mut by_timestamp = BTreeSet::new();
         for (author, ts) in self.iter() {
-            by_timestamp.insert(*ts, *author);
+            by_timestamp.insert((*ts, *author));
         }
         let mut items = Vec::new();
         for (ts, author) in by_timestamp.into_iter().rev() {
@@ -85,7 +89,10 @@ impl AuthorHeads {
             }
         }
         let encoded = postcard::to_stdvec(&items)?;
-        debug_assert!(size_limit.map(|s| encoded.len() <= s).unwrap_or(true));
+        anyhow::ensure!(
+            size_limit.map(|s| encoded.len() <= s).unwrap_or(true),
+            "size limit too small to encode any author heads"
+        );
         Ok(encoded)
     }
 
